@@ -34,7 +34,13 @@ pub struct Case {
     pub timescale: u32,
     pub tracks: Vec<MTrack>,
     pub ops: Vec<BOp>,
+    /// major brand handed to the muxer: index into BRANDS (0 = isom)
+    #[serde(default)]
+    pub brand: u8,
 }
+
+/// brands a caller plausibly asks for; none of them may change how sizes and offsets are stored
+pub const BRANDS: [&[u8; 4]; 8] = [b"isom", b"qt  ", b"mp42", b"M4A ", b"M4V ", b"3gp4", b"iso6", b"dash"];
 
 fn kind_for(i: u32) -> MKind {
     match i % 5 {
@@ -54,6 +60,7 @@ pub struct Outcome {
 pub fn oracle(ctx: &mut Ctx, c: &Case) -> Check {
     let o = oracle_inner(c)?;
     ctx.count(&format!("family:{}", c.family));
+    ctx.count(&format!("major-brand:{}", String::from_utf8_lossy(BRANDS[c.brand as usize % BRANDS.len()])));
     if o.above {
         ctx.count("value-above-u32::MAX");
     }
@@ -74,7 +81,7 @@ fn near32(v: u64) -> bool {
 fn oracle_inner(c: &Case) -> Result<Outcome, Failure> {
     let mut stream = SparseStream::new();
     stream.seek(SeekFrom::Start(c.start_pos)).unwrap();
-    let cfg = mp4::Mp4Config { major_brand: mp4::FourCC { value: *b"isom" }, minor_version: 1, compatible_brands: vec![mp4::FourCC { value: *b"mp42" }], timescale: c.timescale };
+    let cfg = mp4::Mp4Config { major_brand: mp4::FourCC { value: *BRANDS[c.brand as usize % BRANDS.len()] }, minor_version: 1, compatible_brands: vec![mp4::FourCC { value: *b"mp42" }], timescale: c.timescale };
     let mut w = match guard(|| mp4::Mp4Writer::write_start(stream, &cfg)).map_err(|p| p.failure("write_start"))? {
         Ok(w) => w,
         Err(e) => fail!("c13:write_start", "{}", e),
@@ -147,7 +154,7 @@ fn oracle_inner(c: &Case) -> Result<Outcome, Failure> {
     // mdat must cover exactly the media bytes written (+ the 8-byte 'wide' placeholder)
     let payload: u64 = model.iter().flatten().map(|s| s.size as u64).sum();
     ensure!(md_hi - md_lo >= payload && md_hi - md_lo <= payload + 16, "c13:mdat-size", "mdat payload is {} bytes but {} bytes of samples were written", md_hi - md_lo, payload);
-    let mcase = MuxCase { major: *b"isom", minor: 1, compat: vec![*b"mp42"], timescale: c.timescale, tracks: c.tracks.clone(), ops: vec![], sink: 0 };
+    let mcase = MuxCase { major: *BRANDS[c.brand as usize % BRANDS.len()], minor: 1, compat: vec![*b"mp42"], timescale: c.timescale, tracks: c.tracks.clone(), ops: vec![], sink: 0 };
     super::c02::validate_parts(&mcase, &model, &ftyp_payload.unwrap_or_default(), &moov_bytes, md_lo, md_hi)?;
     // 64-bit chunk offsets when needed (validate_parts decodes either form exactly; make the form explicit)
     let mtop = parse::walk(&moov_bytes).map_err(|e| Failure::new("c13:moov-parse", e))?;
@@ -215,6 +222,10 @@ fn oracle_inner(c: &Case) -> Result<Outcome, Failure> {
     Ok(Outcome { near, above: any_above })
 }
 
+pub fn track_pub(kind: u32, ts: u32) -> MTrack {
+    track(kind, ts)
+}
+
 fn track(i: u32, ts: u32) -> MTrack {
     MTrack { kind: kind_for(i), timescale: ts, language: "und".into(), preset: false, ttype: 0 }
 }
@@ -239,7 +250,7 @@ pub fn family_a() -> impl Strategy<Value = Case> {
         let before: u64 = if pending { sizes.iter().step_by(2).map(|x| *x as u64).sum() } else { sizes[..k].iter().map(|x| *x as u64).sum() };
         let target = ((1i64 << 32) + d) as u64;
         let start_pos = target - 20 - 16 - before;
-        Case { family: if pending { "a:chunk-offset-at-2^32(chunks flushed by write_end)".into() } else { "a:chunk-offset-at-2^32".into() }, start_pos, timescale: 1000, tracks, ops }
+        Case { family: if pending { "a:chunk-offset-at-2^32(chunks flushed by write_end)".into() } else { "a:chunk-offset-at-2^32".into() }, start_pos, timescale: 1000, tracks, ops, brand: ((d + 3) as usize * 4 + k) as u8 % 8 }
     })
 }
 
@@ -282,7 +293,7 @@ pub fn family_c() -> impl Strategy<Value = Case> {
         }
         ops.extend(durs.iter().enumerate().map(|(i, du)| BOp { track: long_idx as u32 + 1, size: 3 + (i as u32 % 3), fill: 1 + i as u8, dur: *du, cts: 0, sync: i == 0 }));
         let fam = if target_movie { "c:movie-timescale-duration-at-2^32" } else { "c:media-duration-at-2^32" };
-        Case { family: if n_others == 0 { fam.into() } else { format!("{}+other-tracks", fam) }, start_pos: 0, timescale: movie_ts, tracks, ops }
+        Case { family: if n_others == 0 { fam.into() } else { format!("{}+other-tracks", fam) }, start_pos: 0, timescale: movie_ts, tracks, ops, brand: (parts + n_others) as u8 % 8 }
     })
 }
 
@@ -303,7 +314,7 @@ pub fn family_b(kind: u32, target: u64, extra: u32) -> Case {
     for j in 0..extra {
         ops.push(BOp { track: 1, size: 7, fill: 0xF0 + j as u8, dur: ts, cts: 0, sync: false });
     }
-    Case { family: "b:mdat-size-at-2^32".into(), start_pos: 0, timescale: 600, tracks: vec![track(kind, ts)], ops }
+    Case { family: "b:mdat-size-at-2^32".into(), start_pos: 0, timescale: 600, tracks: vec![track(kind, ts)], ops, brand: ((kind + extra) % 8) as u8 }
 }
 
 pub fn run(ctx: &mut Ctx) {
@@ -313,6 +324,8 @@ pub fn run(ctx: &mut Ctx) {
     if ctx.quick() {
         cases.push(family_b(0, b32, 0));
         cases.push(family_b(1, b32 - 1, 2));
+        // a third one above the mark with another major brand (0 + 1 -> 'qt  ')
+        cases.push(family_b(0, b32 + 64, 1));
     } else {
         for kind in 0..5 {
             for (t, e) in [(b32 - 1, 0u32), (b32, 1), (b32 + 1, 2)] {
@@ -356,7 +369,7 @@ pub fn run(ctx: &mut Ctx) {
                 tracks.push(track(3, ts));
             }
             let ops: Vec<BOp> = (0..n_chunks * if two { 2 } else { 1 }).map(|i| BOp { track: 1 + (two && i % 2 == 1) as u32, size: 1 + i % 7, fill: 1 + (i % 200) as u8, dur: ts, cts: 0, sync: true }).collect();
-            let c = Case { family: "a:long-history-beyond-2^32".into(), start_pos: start, timescale: 1000, tracks, ops };
+            let c = Case { family: "a:long-history-beyond-2^32".into(), start_pos: start, timescale: 1000, tracks, ops, brand: (idx % 8) as u8 };
             ctx.pre_case(&c);
             let res = oracle(ctx, &c);
             ctx.judge(&c, res);
